@@ -232,7 +232,14 @@ def r3_discipline(ctx):
                     b = F.bind_args(tv, ctx.prog.find_method(et, '__init__'), True)
                     ctx.check(src(b.get('encoding')) == cell, 'R3', hat, run_.qualname, 'error-token-verbatim-cell',
                               'ErrorToken receives the raw cell text', f'ErrorToken receives `{src(b.get("encoding"))}`, not the raw cell `{cell}`')
-                    ctx.check(src(b.get('line')) == 'self._row_number', 'R3', hat, run_.qualname, 'error-token-line',
+                    line_ = b.get('line')
+                    if isinstance(line_, ast.Name):
+                        # a local that holds the row counter of this row (read once per row): same value
+                        defs_ = [n_.value for n_ in walk_local(run_.node) if isinstance(n_, ast.Assign) and len(n_.targets) == 1
+                                 and F.is_name(n_.targets[0], line_.id)]
+                        if len(defs_) == 1 and src(defs_[0]) == 'self._row_number':
+                            line_ = defs_[0]
+                    ctx.check(src(line_) == 'self._row_number', 'R3', hat, run_.qualname, 'error-token-line',
                               'ErrorToken receives the current row number', f'ErrorToken line is `{src(b.get("line"))}`')
                     ctx.check(exc is not None and src(b.get('error')) in (f'str({exc}@exc)', f'repr({exc}@exc)', f'str({exc})', f'repr({exc})'), 'R3', hat,
                               run_.qualname, 'error-token-message', 'ErrorToken receives the message of the caught exception',
